@@ -29,6 +29,10 @@ type TokOp struct {
 // C10Plan is a sequence of operations.
 type C10Plan struct {
 	Ops []TokOp `json:"ops"`
+	// Sparse: tokens are presented only where the plan says so (no sweep over all tokens after every step, no
+	// non-admin pre-check), so that a token can be created, survive a restart and be revoked without having been
+	// used in between; the sweep runs once at the end.
+	Sparse bool `json:"sparse,omitempty"`
 }
 
 // wsConnect tries the websocket connect handshake with a token.
@@ -187,7 +191,7 @@ func runC10(p *C10Plan) (*stats.Case, error) {
 				lookAlikes++
 			}
 			// a user token must not be able to revoke
-			if len(issued) > 0 && live[issued[0]] && tok != issued[0] {
+			if !p.Sparse && len(issued) > 0 && live[issued[0]] && tok != issued[0] {
 				if r2, _ := s.Do("DELETE", "/api/v1/access/"+url.PathEscape(tok), auth(issued[0]), nil); r2.Code != 401 {
 					return nil, fmt.Errorf("%s: non-admin token revoked a token (%d)", where, r2.Code)
 				}
@@ -242,6 +246,9 @@ func runC10(p *C10Plan) (*stats.Case, error) {
 			restarts++
 		}
 		// invariant after every step: every token ever issued authenticates iff live; admin always
+		if p.Sparse && i != len(p.Ops)-1 {
+			continue
+		}
 		for j, tok := range issued {
 			if err := checkHTTP(tok, j+i, where+" / invariant"); err != nil {
 				return nil, err
@@ -268,7 +275,7 @@ func runC10(p *C10Plan) (*stats.Case, error) {
 		}
 	}
 	cl := map[string]int64{"revocations_of_look_alikes": int64(lookAlikes), "sequences": 1, "ops": int64(len(p.Ops)), "tokens_issued": int64(len(issued)), "ws_checks": int64(wsChecks), "restarts": int64(restarts),
-		"with_create_revoke_auth": b2i(sawCRA), "with_restart_between": b2i(restartBetween)}
+		"with_create_revoke_auth": b2i(sawCRA), "with_restart_between": b2i(restartBetween), "sparse_presentation": b2i(p.Sparse)}
 	return &stats.Case{Sig: stats.Sig(fmt.Sprint(p.Ops)), Nontrivial: sawCRA && restartBetween, Classes: cl, Sample: p}, nil
 }
 
@@ -314,7 +321,7 @@ var propC10 = Prop[*C10Plan]{
 	Name: "TestC10",
 	Gen: func(t *rapid.T) *C10Plan {
 		n := rapid.IntRange(5, quickThorough(30, 60)).Draw(t, "nops")
-		p := &C10Plan{}
+		p := &C10Plan{Sparse: rapid.Bool().Draw(t, "sparse")}
 		for i := 0; i < n; i++ {
 			op := TokOp{Kind: rapid.SampledFrom([]string{"create", "create", "create", "revoke", "revoke", "revoke", "http", "http", "http", "ws", "restart", "restart"}).Draw(t, "kind")}
 			switch k := rapid.IntRange(0, 9).Draw(t, "tk"); {
